@@ -5,13 +5,20 @@ From DV Require Import Model.Base Model.Nfa Model.BwBuild Model.CwBuild.
 
 (* to_le_bytes / from_le_bytes for an n-byte unsigned integer *)
 Fixpoint to_le (n : nat) (x : N) : list N :=
-  match n with O => [] | S k => (x mod 256) :: to_le k (x / 256) end.
+  match n with O => [] | S k => N.land x 255 :: to_le k (N.shiftr x 8) end.
 Fixpoint of_le (bs : list N) : N :=
   match bs with [] => 0 | b :: r => b + 256 * of_le r end.
 
 (* src[..n] / src[n..] with the bounds check of slice indexing *)
-Definition take_n (n : nat) (src : list N) : res (list N * list N) :=
-  if (length src <? n)%nat then Panic PIndex else Ok (firstn n src, skipn n src).
+Fixpoint take_n (n : nat) (src : list N) : res (list N * list N) :=
+  match n with
+  | O => Ok ([], src)
+  | S k =>
+    match src with
+    | [] => Panic PIndex
+    | b :: r => '(h, t) <- take_n k r ;; Ok (b :: h, t)
+    end
+  end.
 
 Definition ser_u32 (x : N) : list N := to_le 4 x.
 Definition de_u32 (src : list N) : res (N * list N) :=
